@@ -535,7 +535,17 @@ pub fn extract_to_dir<RS: Read + Seek + HasLength>(
                 &file
             };
             let target_file = target_dir.join(new_file_name);
-            if !target_file.exists() {
+            // files with a name leading outside of target_dir (absolute or with ..) are never
+            // treated as "existing/extracted already". (they are not extracted below either)
+            let is_within_target_dir = Path::new(new_file_name)
+                .components()
+                .all(|c| {
+                    matches!(
+                        c,
+                        std::path::Component::Normal(_) | std::path::Component::CurDir
+                    )
+                });
+            if !is_within_target_dir || !target_file.exists() {
                 files_filter.push(file); // need the unmapped name here
             } else {
                 extracted.push(new_file_name.into());
